@@ -40,7 +40,7 @@ theorem take_drop_add (l : Bytes) (c m n : Nat) :
     (l.drop c).take m ++ (l.drop (c + m)).take n = (l.drop c).take (m + n) := by
   rw [List.take_add, List.drop_drop]
 
-theorem Rep.bytes_len {mb : Bytes} {p : Pair} {c : Nat} (h : Rep mb p c) : p.bytes.length = p.len := by
+theorem Rep.bytes_len {mb : Bytes} {p : Pair} {c : Nat} (_h : Rep mb p c) : p.bytes.length = p.len := by
   simp [Pair.bytes, Pair.len]
 
 /-- the literal-splitting loop: whatever the block-split description, what it emits replays to exactly the
@@ -107,5 +107,46 @@ theorem litLoop_spec (w : WordOracle) (window : Nat) (mb : Bytes) (he : Bool) (b
     · rw [if_neg hgt] at h
       cases h
       exact ⟨[], 0, by simp, by simpa using hrep, by omega, by omega, by omega, by simpa using Emits.nil w window mb⟩
+
+theorem litPart_spec (w : WordOracle) (window : Nat) (mb : Bytes) (h32 : mb.length < 2 ^ 32)
+    (e : Env) (s : St) (inserts : Pair) (c : Nat) (lsub lc mbLen' : Nat) (out' : List IR)
+    (hrep : Rep mb inserts c) (h : litPart e s inserts = some (lsub, lc, mbLen', out')) :
+    ∃ lits, out' = s.out ++ lits ∧ mbLen' + inserts.len = s.mbLen ∧ Emits w window mb lits inserts.bytes := by
+  unfold litPart at h
+  by_cases hz : inserts.len ≠ 0
+  · rw [if_pos hz] at h
+    cases hl : litLoop e.he e.btl (inserts.len + e.btl.types.length + 2) inserts s.lsub s.lc s.mbLen s.out with
+    | none => rw [hl] at h; cases h
+    | some r =>
+      obtain ⟨tmp, sub, counter, mbLen, out⟩ := r
+      rw [hl] at h
+      simp only at h
+      obtain ⟨lits, k, e1, r1, k1, m1, s1, em1⟩ := litLoop_spec w window mb e.he e.btl h32 _ _ _ _ _ _ c _ _ _ _ _ hrep hl
+      have emT := Emits.pushLiterals w window mb e.he tmp (c + k) r1 h32
+      have hbytes : (mb.drop c).take k ++ tmp.bytes = inserts.bytes := by
+        rw [r1.bytes, hrep.bytes, take_drop_add, k1]
+      by_cases htz : tmp.len ≠ 0
+      · rw [if_pos htz] at h
+        by_cases hbad : mbLen < tmp.len ∨ sub < tmp.len % 2 ^ 32
+        · rw [if_pos hbad] at h; cases h
+        · rw [if_neg hbad] at h
+          cases h
+          refine ⟨lits ++ pushLiterals e.he tmp, by rw [e1]; simp, by omega, ?_⟩
+          have := em1.append emT
+          rw [hbytes] at this
+          exact this
+      · rw [if_neg htz] at h
+        cases h
+        refine ⟨lits ++ pushLiterals e.he tmp, by rw [e1]; simp, by omega, ?_⟩
+        have := em1.append emT
+        rw [hbytes] at this
+        exact this
+  · rw [if_neg hz] at h
+    cases h
+    have hb : inserts.bytes = [] := by
+      have : inserts.bytes.length = 0 := by rw [hrep.bytes_len]; omega
+      exact List.length_eq_zero_iff.mp this
+    exact ⟨[], by simp, by omega, by rw [hb]; exact Emits.nil w window mb⟩
+
 
 end BV.Recoder
